@@ -127,11 +127,14 @@ def run_record(pid, record):
 
 
 def _chunk_worker(args):
-    pid, seeds, tier, audit_every = args
+    pid, seeds, tier, audit_every = args[:4]
+    deadline = args[4] if len(args) > 4 else None
     out = []
     for i, seed in enumerate(seeds):
+        if deadline is not None and time.time() > deadline:
+            break   # the batch's time budget is used up: the remaining seeds of this chunk are not explored
         r = run_one(pid, seed, tier)
-        if audit_every and i % audit_every == 0 and r["verdict"] != "harness_error":
+        if audit_every and seed % audit_every == 0 and r["verdict"] != "harness_error":
             r2 = run_one(pid, seed, tier)
             r["audited"] = True
             if r2.get("digest") != r.get("digest") or r2["verdict"] != r["verdict"]:
@@ -223,7 +226,7 @@ def batch(pid, tier, base_seed, nruns, workers=16, time_budget=None, audit_every
     """Run nruns seeds (base_seed*1_000_003 + i). Returns list of results."""
     first = base_seed * 1000003
     seeds = list(range(first, first + nruns))
-    chunk = max(1, min(25, nruns // (workers * 4) or 1))
+    chunk = max(1, min(25 if not time_budget or time_budget > 600 else 6, nruns // (workers * 4) or 1))
     chunks = [seeds[i:i + chunk] for i in range(0, len(seeds), chunk)]
     ctx = multiprocessing.get_context("fork")
     results = []
@@ -231,12 +234,15 @@ def batch(pid, tier, base_seed, nruns, workers=16, time_budget=None, audit_every
     stopped = False
     with cf.ProcessPoolExecutor(max_workers=workers, mp_context=ctx,
                                 initializer=_worker_init) as ex:
-        futs = [ex.submit(_chunk_worker, (pid, c, tier, audit_every)) for c in chunks]
+        deadline = (time.time() + time_budget) if time_budget else None
+        futs = [ex.submit(_chunk_worker, (pid, c, tier, audit_every, deadline)) for c in chunks]
+        if time_budget:
+            # when the budget is used up, whatever has not started yet is dropped (the runs that did
+            # execute are complete runs; fewer seeds were explored, nothing else changes)
+            _, late = cf.wait(futs, timeout=time_budget)
+            for g in late:
+                g.cancel()
         for fu in futs:
-            if time_budget and time.time() - t0 > time_budget and not stopped:
-                stopped = True
-                for g in futs:
-                    g.cancel()
             try:
                 results.extend(fu.result())
             except cf.CancelledError:
